@@ -274,11 +274,26 @@ func Font(k int) *sfnt.Font {
 			FeatureList: []*gtab.Feature{{Tag: "rqrd", Lookups: append(make([]gtab.LookupIndex, 0, 8), 2, 2, 1)}, {Tag: "liga", Lookups: []gtab.LookupIndex{0, 3}}, {Tag: "smcp", Lookups: []gtab.LookupIndex{0, 2}}},
 			LookupList:  gtab.LookupList{l0, l1, l2, l3},
 		}
+		if k != 0 {
+			// an alternate substitution whose alternates are an ordered list, not in glyph order
+			l4 := gen.MakeLookup(3, gen.Flags[0], []gtab.Subtable{&gtab.Gsub3_1{Cov: coverage.Table{1: 0, 2: 1}, Alternates: [][]glyph.ID{{5, 3, 4}, {4, 1}}}})
+			f.Gsub.LookupList = append(f.Gsub.LookupList, l4)
+			f.Gsub.FeatureList = append(f.Gsub.FeatureList, &gtab.Feature{Tag: "aalt", Lookups: []gtab.LookupIndex{4}})
+			for _, fe := range f.Gsub.ScriptList {
+				fe.Optional = append(fe.Optional, 3)
+			}
+		}
 		if k == 0 {
 			// the subsetter declares contextual lookups unsupported: the glyf font keeps a GSUB it can subset
 			f.Gsub.LookupList = gtab.LookupList{l0, l1, l2}
 			f.Gsub.FeatureList[1].Lookups = []gtab.LookupIndex{0}
 		}
+	}
+	if k == 1 {
+		// no cap height / x-height given although 'H' and 'x' are mapped (the writer derives the OS/2 values
+		// from the glyphs; that must not be stored in the shared font)
+		f.CapHeight, f.XHeight = 0, 0
+		f.InstallCMap(cmap.Format4{'A': 1, 'B': 2, 'f': 3, 'i': 4, 0xFB01: 5, 'H': 3, 'x': 4})
 	}
 	if k == 0 {
 		// a Macintosh and a Windows record that share one subtable (the same bytes), with codes above 0x7F:
